@@ -55,10 +55,15 @@ struct FileSpec {
     items: Vec<ItemStanza>,
 }
 
+thread_local! { static FORCE_DEMOTE: std::cell::RefCell<Vec<String>> = std::cell::RefCell::new(vec![]); }
 thread_local! { static LOST: std::cell::RefCell<Vec<String>> = std::cell::RefCell::new(vec![]); }
 fn lost(msg: String) {
     eprintln!("vx-assemble: {}", msg);
     LOST.with(|l| l.borrow_mut().push(msg));
+}
+
+fn f_name_of(n: &str) -> String {
+    n.to_string()
 }
 
 fn fail(msg: &str) -> ! {
@@ -845,14 +850,55 @@ fn pass2(fs_: &FileSpec, text1: &str, is_root: bool, map: &mut Vec<BTreeMap<Stri
             let saved = edits.v.len();
             let saved_norms = norms.len();
             let mut wrapped_closures: Vec<usize> = vec![];
+            let forced_key = format!("{}|{}|{}", fs_.file, st.selector, f_name_of(&f.name));
+            let forced = FORCE_DEMOTE.with(|fd| fd.borrow().contains(&forced_key));
             let res = std::panic::catch_unwind(std::panic::AssertUnwindSafe(|| {
+                if forced {
+                    fail(&format!("UNSUPPORTED {}: Verus rejected a construct in this function", cctx));
+                }
             for d in &stanza.dirs {
                 let k = d.kind.as_str();
+                // a loop / closure is selected by pre-order ordinal, or by a text fragment that its
+                // header (loops: from the keyword to the body) or its whole source (closures) contains
                 let idx_arg = |what: &str| -> usize {
-                    d.args
-                        .get(0)
-                        .and_then(|s| s.parse::<usize>().ok())
-                        .unwrap_or_else(|| fail(&format!("{}: @{} needs an index ({})", cctx, k, what)))
+                    let a0 = d.args.get(0).cloned().unwrap_or_default();
+                    if let Ok(n) = a0.parse::<usize>() {
+                        return n;
+                    }
+                    let needle = norm_ws(&a0);
+                    if needle.is_empty() {
+                        fail(&format!("{}: @{} needs an index or a text selector ({})", cctx, k, what));
+                    }
+                    let hits: Vec<usize> = if what.starts_with("loop") {
+                        shape
+                            .loops
+                            .iter()
+                            .enumerate()
+                            .filter(|(_, l)| {
+                                let (st, en) = match l {
+                                    LoopRef::For(f) => (src.start(*f), src.off(f.body.brace_token.span.open().start())),
+                                    LoopRef::While(w) => (src.start(*w), src.off(w.body.brace_token.span.open().start())),
+                                    LoopRef::Loop(lp) => (src.start(*lp), src.off(lp.body.brace_token.span.open().start())),
+                                };
+                                norm_ws(&src.text[st..en]).contains(&needle)
+                            })
+                            .map(|(i, _)| i)
+                            .collect()
+                    } else {
+                        shape.closures.iter().enumerate().filter(|(_, c)| norm_ws(&src.text[src.start(**c)..src.end(**c)]).contains(&needle)).map(|(i, _)| i).collect()
+                    };
+                    match hits.len() {
+                        0 => fail(&format!("LOST-ANCHOR {}: no {} contains `{}`", cctx, what, needle)),
+                        1 => hits[0],
+                        _ => {
+                            // several (nested) candidates: a closure selector picks the innermost one, i.e. the last in pre-order
+                            if what.starts_with("closure") {
+                                *hits.last().unwrap()
+                            } else {
+                                fail(&format!("LOST-ANCHOR {}: {} selector `{}` is ambiguous", cctx, what, needle))
+                            }
+                        }
+                    }
                 };
                 match k {
                     "shape" => {
@@ -933,7 +979,7 @@ fn pass2(fs_: &FileSpec, text1: &str, is_root: bool, map: &mut Vec<BTreeMap<Stri
                                     let mut start = String::new();
                                     let mut end = String::new();
                                     for d2 in &stanza.dirs {
-                                        if d2.args.get(0).and_then(|s| s.parse::<usize>().ok()) != Some(i) {
+                                        if !matches!(d2.kind.as_str(), "closure" | "closure-start" | "closure-end") || d2.args.get(0) != d.args.get(0) {
                                             continue;
                                         }
                                         match d2.kind.as_str() {
@@ -1062,6 +1108,8 @@ fn cmd_assemble(args: &BTreeMap<String, String>) {
     let outdir = PathBuf::from(args.get("out").unwrap_or_else(|| die("--out")));
     let prelude = PathBuf::from(args.get("prelude").unwrap_or_else(|| die("--prelude")));
     let unit = args.get("unit").cloned().unwrap_or_else(|| "all".to_string());
+    let demote: Vec<String> = args.get("demote").map(|d| d.split(';').filter(|x| !x.is_empty()).map(|x| x.to_string()).collect()).unwrap_or_default();
+    FORCE_DEMOTE.with(|f| *f.borrow_mut() = demote);
 
     let mut specs: BTreeMap<String, FileSpec> = BTreeMap::new();
     let mut vs: Vec<_> = fs::read_dir(&cdir).unwrap_or_else(|e| die(&format!("{:?}: {}", cdir, e))).filter_map(|e| e.ok()).map(|e| e.path()).filter(|p| p.extension().map(|x| x == "vspec").unwrap_or(false)).collect();
